@@ -580,7 +580,9 @@ func c12Formulas(c *Ctx, fnm map[string]*ssa.Function) {
 				})
 			})
 		}
+		be.lenConst = map[string]int64{"len(IV)": 12}
 		collect("96", 12, 12)
+		be.lenConst = nil
 		collect("other", 0, 11)
 		collect("other", 13, 12)
 		ok := (got["96"] == "concat(make(0x0),IV,lit(0x0,0x0,0x0,0x1))" || got["96"] == "concat(IV,lit(0x0,0x0,0x0,0x1))") && got["other"] == "call:sm4.GHASH(H,concat(),IV)"
